@@ -1,9 +1,12 @@
-(* Model of iscp/storage.go: inmemSentStorage (payload-keeping) and inmemSentStorageNoPayload
-   (the connection's default: Store keeps only the elapsed time of every point).
+(* Model of iscp/storage.go: inmemSentStorage (payload-keeping; the connection's default since
+   /repo f1380ca) and inmemSentStorageNoPayload (Store keeps only the elapsed time of every point;
+   the default before that commit - finding F1).
    One storage per connection: stream id -> sequence number -> data point groups.
-   Transliteration of Store / Remove / List / Clear AS THEY ARE TODAY, including Clear, which
-   replaces the whole map (every stream) - finding F3 - and the repaired Clear (delete of one
-   key) side by side, selected by [clear_variant].  Executable; no proofs here.
+   Transliteration of Store / Remove / List / Clear as they are NOW: Clear deletes the one stream's
+   entry under the write lock ([ClearRepaired], /repo 0f97a0d).  The FORMER Clear, which replaced
+   the whole map of every stream (finding F3), is kept side by side as [ClearFormer] for the
+   refutation lemma only; [clear_of_code] says which one the correspondence uses.
+   Executable; no proofs here.
    Go maps are association lists (Lib/ListMap); what List returns is sorted by sequence number
    on both sides before it is compared (Go's iteration order is random). *)
 From Coq Require Import List NArith Bool.
@@ -20,7 +23,7 @@ Definition strip_groups (g : groups) : groups := map (fun d => (fst d, map strip
 
 Definition sstate := lmap (lmap groups).
 
-Inductive clear_variant := ClearToday | ClearRepaired.
+Inductive clear_variant := ClearFormer | ClearRepaired.
 
 Inductive sop :=
 | SStore (sid seq : N) (g : groups)
@@ -69,12 +72,12 @@ Definition st_list (sid : N) (st : sstate) : sres :=
   | Some m => RList (sort_map m)
   end.
 
-(* inmemSentStorage.Clear TODAY: s.buf = make(map[uuid.UUID]map[uint32]DataPointGroups)
-   - the stream id is not looked at (and the write happens under RLock: see Props/C09static).
-   Repaired: delete(s.buf, streamID) under Lock. *)
+(* inmemSentStorage.Clear: delete(s.buf, streamID) under Lock  [ClearRepaired = the code now].
+   Formerly: s.buf = make(map[uuid.UUID]map[uint32]DataPointGroups) - the stream id was not looked
+   at (and the write happened under RLock)  [ClearFormer]. *)
 Definition st_clear (v : clear_variant) (sid : N) (st : sstate) : sstate :=
   match v with
-  | ClearToday => []
+  | ClearFormer => []
   | ClearRepaired => remove sid st
   end.
 
@@ -124,7 +127,7 @@ Fixpoint srun_snaps (v : clear_variant) (keep : bool) (ids : list N) (st : sstat
   end.
 
 Record st_case := mkStCase {
-  sc_keep : bool;                    (* true: newInmemSentStorage, false: newInmemSentStorageNoPayload *)
+  sc_keep : bool;                    (* true: newInmemSentStorage (default), false: newInmemSentStorageNoPayload *)
   sc_ids : list N;                   (* universe of stream ids *)
   sc_ops : list sop;
   (* observations on the real storage *)
@@ -132,9 +135,12 @@ Record st_case := mkStCase {
   sc_snaps : list (list sres)        (* List of every stream of the universe after every op *)
 }.
 
+(* which Clear the code has (F3 fixed in /repo 0f97a0d) *)
+Definition clear_of_code : clear_variant := ClearRepaired.
+
 Definition st_corr (c : st_case) : bool :=
-  list_beq _ sres_eqb (snd (srun ClearToday (sc_keep c) [] (sc_ops c))) (sc_res c)
-  && list_beq _ (list_beq _ sres_eqb) (srun_snaps ClearToday (sc_keep c) (sc_ids c) [] (sc_ops c)) (sc_snaps c).
+  list_beq _ sres_eqb (snd (srun clear_of_code (sc_keep c) [] (sc_ops c))) (sc_res c)
+  && list_beq _ (list_beq _ sres_eqb) (srun_snaps clear_of_code (sc_keep c) (sc_ids c) [] (sc_ops c)) (sc_snaps c).
 
 (* C07 (storage part) on the observation alone: an operation addressed to stream a leaves what
    List returns for every other stream b of the universe unchanged. *)
